@@ -966,10 +966,16 @@ pub fn run(ctx: &Ctx) -> ! {
     rep.extra("fresh_reference_imports", json!(fresh.len()));
     rep.extra("bounds", json!({"max_chain_length": MAX_LEN, "block_range_length": RANGE}));
     if g(&N_SHADOW_MISMATCH) > 0 {
-        rep.machinery_error(format!(
-            "{} scans started from a point other than the one the harness predicted (last polled point, else highest stored block): the importer-cursor part of the canonical state is wrong",
+        // (never on the unchanged tree) the tree under test resumes its scans from another point
+        // than "last polled point, else highest stored block": the importer-cursor part of the
+        // canonical state is then a guess, states may have been merged that differ in it, so the
+        // exploration is not claimed exhaustive; every verdict reached is still about a real run
+        eprintln!(
+            "[C13] {} scans started from a point other than the one the harness predicted: state de-duplication is unreliable for this tree, the run is not claimed exhaustive",
             g(&N_SHADOW_MISMATCH)
-        ));
+        );
+        rep.extra("scans_started_from_unpredicted_point", json!(g(&N_SHADOW_MISMATCH)));
+        rep.exhaustive = false;
     }
     rep.assume(
         "the Cardano node is the only double: a chain-sync server behind the repository's ChainBlockReader trait. Reading of \
